@@ -385,7 +385,9 @@ def PixR.toPReg : PixR α → PReg α
 def PixR.contains (r : PixR α) (p : Pt α) : Bool := r.toPReg.contains p
 
 /-- `SkyRegion.contains(skycoord, wcs)`:
-every class but the compound: `self.to_pixel(wcs).contains(PixCoord.from_sky(skycoord, wcs))`;
+circle, ellipse, rectangle, polygon, the annuli (base class): `self.to_pixel(wcs).contains(PixCoord.from_sky(skycoord, wcs))`;
+`PointSkyRegion` / `LineSkyRegion` (and `TextSkyRegion`, a subclass of the point) override it:
+`return not self.meta.get('include', True)` — no conversion at all;
 `CompoundSkyRegion.contains`: `operator(region1.contains(…), region2.contains(…))`, negated
 unless `self.meta.get('include', True)`. -/
 def SkyR.contains (w : Wcs Sky α) : SkyR Sky α → Sky → Bool
@@ -399,10 +401,40 @@ def SkyR.contains (w : Wcs Sky α) : SkyR Sky α → Sky → Bool
       ((SkyR.ellipseAnnulus c w1 w2 h1 h2 d m v).toPixel w).contains (w.toPix q)
   | .rectAnnulus c w1 w2 h1 h2 d m v, q =>
       ((SkyR.rectAnnulus c w1 w2 h1 h2 d m v).toPixel w).contains (w.toPix q)
-  | .point c m v, q => ((SkyR.point c m v).toPixel w).contains (w.toPix q)
-  | .line a b m v, q => ((SkyR.line a b m v).toPixel w).contains (w.toPix q)
-  | .text c t m v, q => ((SkyR.text c t m v).toPixel w).contains (w.toPix q)
+  | .point _ m _, _ => !m.inc.truthy
+  | .line _ _ m _, _ => !m.inc.truthy
+  | .text _ _ m _, _ => !m.inc.truthy
 
 end field
+
+/-! ### shape of the answer of `contains` (scalar / array positions)
+
+`none` = one scalar answer, `some dims` = an array of that shape (`Impl.QShape`).  The pixel classes
+answer in the shape of the queried coordinates (`Impl.resultShape`, C01).  On the sky side the
+point / line / text overrides return ONE Python bool whatever was asked; the base class answers through
+the pixel image, i.e. in the shape of the positions; the compound combines its components' answers
+with a numpy-broadcasting operator (scalar ∘ scalar = scalar, anything with an array = the array's
+shape; both arrays have the shape of the positions). -/
+
+section shape
+variable {Sky α : Type}
+
+/-- does the expression contain a class that answers through the pixel image? -/
+def SkyR.hasSized : SkyR Sky α → Bool
+  | .point .. | .line .. | .text .. => false
+  | .compound _ a b _ _ => a.hasSized || b.hasSized
+  | _ => true
+
+/-- shape of `SkyRegion.contains(skycoord, wcs)` for positions of shape `q`. -/
+def SkyR.containsShape : SkyR Sky α → QShape → QShape
+  | .point .., _ | .line .., _ | .text .., _ => none
+  | .compound _ a b _ _, q =>
+    match a.containsShape q, b.containsShape q with
+    | none, none => none
+    | some d, _ => some d
+    | none, some d => some d
+  | _, q => q
+
+end shape
 
 end RegionsVerif.Impl
